@@ -101,6 +101,21 @@ class TreeStub:
         return (*minus, *plus, cand, F(cand), G(cand), n, s, al, na)
 
 
+def tree_base_nonfinite(c, cls, v, val):
+    """a leaf whose log-density is not a number (or -inf) is outside every slice and ends the trajectory: it is never counted as a
+    candidate (n' = 0), it is inadmissible (s' = 0), and the value handed back for it is the target's own value (not a finite number)"""
+    s = _mk(c, cls); G = s._target.g
+    s._target.logd = lambda x: val                      # the target reports `val` at the leaf
+    x, r = c.avec('x'), c.avec('r'); eps = c.real('eps', pos=True)
+    Ham = c.real('Ham'); log_u = c.real('log_u')
+    out = s._BuildTree(x, r, G(x), Ham, log_u, v, 0, eps)
+    (pm, rm, gm, pp, rp, gp, pc, lc, gc, n, st, al, na) = out
+    c.holds('nonfinite_leaf_is_not_counted', (n == 0) if not isinstance(n, core.SReal) else bool(n == 0), note=str(n))
+    c.holds('nonfinite_leaf_is_inadmissible', (st == 0) if not isinstance(st, core.SReal) else bool(st == 0), note=str(st))
+    lcv = lc if not isinstance(lc, core.SReal) else None
+    c.holds('cached_value_of_the_leaf_is_the_targets_own_value', lcv is not None and ((np.isnan(lcv) and np.isnan(val)) or lcv == val), note=str(lc))
+
+
 def tree_step(c, cls, v):
     s = _mk(c, cls); F, G = s._target.f, s._target.g
     stub = TreeStub(c, v, F, G); s._BuildTree = stub
@@ -280,6 +295,8 @@ def jobs(tier):
         J.append(Job(f'{tag}.NUTS._Leapfrog:structure_and_reversibility', lambda c, cls=cls: leapfrog(c, cls), 'Pinf', [f'{q}._Leapfrog', f'{q}._nuts_target']))
         for v in (-1, 1):
             J.append(Job(f'{tag}.NUTS._BuildTree:base_case:v={v}', lambda c, cls=cls, v=v: tree_base(c, cls, v), 'Pinf', [f'{q}._BuildTree', f'{q}._Leapfrog', f'{q}._Kfun'], maxpaths=256))
+            for val in (float('nan'), float('-inf')):
+                J.append(Job(f'{tag}.NUTS._BuildTree:base_case:v={v}:leaf_logd={val}', lambda c, cls=cls, v=v, val=val: tree_base_nonfinite(c, cls, v, val), 'Pinf', [f'{q}._BuildTree', f'{q}._Leapfrog'], maxpaths=256))
             J.append(Job(f'{tag}.NUTS._BuildTree:induction_step:v={v}', lambda c, cls=cls, v=v: tree_step(c, cls, v), 'Pinf', [f'{q}._BuildTree'], maxpaths=4096, timeout=900))
     for nf in (None, float('nan'), float('-inf'), float('inf')):
         J.append(Job(f'experimental.NUTS.step:loop_body:{"finite" if nf is None else nf}', lambda c, nf=nf: step_body(c, nf), 'Pinf', [f'{X}.step'], maxpaths=4096, timeout=900))
